@@ -70,6 +70,21 @@ func c08Build(rng *rand.Rand, nHot, nCold, rounds, hotBlock int) *c08Hist {
 		}
 		h.HotVals = append(h.HotVals, vals)
 	}
+	// types whose tag literals are legal Go but not in the conventional key:"value" form (Lookup finds
+	// nothing, or only part of it): whatever the library says about them, it must say on every call
+	oddTags := []string{`json:name valid:"required|m_odd1"`, `valid:required`, `valid:"required|m_odd2" json`, `  valid:"ge=1|m_odd3"`, `valid:"ge=1|m_odd4"json:"x"`, `valid: "required"`, `a:"le=2|m_odd5" valid`, `b:x a:"required|m_odd6"`}
+	for i, tg := range oddTags {
+		t := reflect.StructOf([]reflect.StructField{{Name: "N", Type: gen.TInt, Tag: reflect.StructTag(tg)}, {Name: "S", Type: gen.TString, Tag: reflect.StructTag(tg)}, {Name: fmt.Sprintf("Z%d", i), Type: gen.TString, Tag: `valid:"required|m_z"`}})
+		h.HotTypes = append(h.HotTypes, t)
+		vals := []reflect.Value{}
+		for j := 0; j < 3; j++ {
+			v := reflect.New(t)
+			v.Elem().Field(0).SetInt(int64(j * 3))
+			vals = append(vals, v)
+		}
+		h.HotVals = append(h.HotVals, vals)
+	}
+	nHot = len(h.HotTypes)
 	for i := 0; i < nCold; i++ {
 		// distinct tag text => distinct reflect.Type: a cheap way to have more types than any cache holds
 		tag := fmt.Sprintf(`valid:"ge=%d|m_cold%d" a:"le=%d|m_colda%d"`, i%7, i, i%5, i)
